@@ -137,7 +137,7 @@ func (w *Worker) Violate(key, summary string, c interface{}, detail interface{})
 // accumulated too many leaked goroutines (yaccgo's lexer goroutine stays
 // blocked forever after a parse error).
 func (w *Worker) Recycle(next int64) {
-	if w.replay || runtime.NumGoroutine() < 20000 {
+	if w.replay || runtime.NumGoroutine() < 4000 {
 		return
 	}
 	w.Out.Done = false
